@@ -31,20 +31,21 @@ def main():
     demo = os.path.join(d, "demo.rs")
     meta = {"id": sid, "property": prop, "source": d, "ran": []}
     assert sh("git status --porcelain", cwd=wt).stdout.strip() == "", "scratch worktree not clean"
-    # demo registration
-    demo_name = "demo_" + re.sub(r"[^a-z0-9]", "_", sid.lower())
-    shutil.copy(demo, os.path.join(wt, "tests", demo_name + ".rs"))
-    req = ["tests-cfg", "backend-mysql", "backend-postgres", "backend-sqlite"]
-    cargo = open(os.path.join(wt, "Cargo.toml")).read()
-    open(os.path.join(wt, "Cargo.toml"), "w").write(cargo + f'\n[[test]]\nname = "{demo_name}"\npath = "tests/{demo_name}.rs"\nrequired-features = {json.dumps(req)}\n')
     fflag = f"--features {feats}" if feats else ""
     try:
         r = sh(f"git apply {patch}", cwd=wt)
         assert r.returncode == 0, "patch does not apply: " + r.stderr
-        r = sh(f"cargo test --workspace --offline 2>&1", cwd=wt)
+        r = sh(f"cargo test --workspace --no-fail-fast --offline 2>&1", cwd=wt)
         p, f = test_summary(r.stdout)
         meta["suite_with_patch"] = {"passed": p, "failed": f, "exit": r.returncode}
-        meta["ran"].append("cargo test --workspace --offline (with patch)")
+        meta["ran"].append("cargo test --workspace --no-fail-fast --offline (with patch, before the demo is added)")
+        # demo registration
+        demo_name = "demo_" + re.sub(r"[^a-z0-9]", "_", sid.lower())
+        shutil.copy(demo, os.path.join(wt, "tests", demo_name + ".rs"))
+        req = ["tests-cfg", "backend-mysql", "backend-postgres", "backend-sqlite"]
+        cargo = open(os.path.join(wt, "Cargo.toml")).read()
+        open(os.path.join(wt, "Cargo.toml"), "w").write(cargo + f'\n[[test]]\nname = "{demo_name}"\npath = "tests/{demo_name}.rs"\nrequired-features = {json.dumps(req)}\n')
+
         r = sh(f"cargo test --offline {fflag} --test {demo_name} 2>&1", cwd=wt)
         p, f = test_summary(r.stdout)
         meta["demo_with_patch"] = {"passed": p, "failed": f, "exit": r.returncode, "tail": r.stdout[-600:]}
